@@ -713,7 +713,12 @@ class CGenerator:
             # The code preserved from a file belongs to that file only (not to every file whose name it contains).
             single = OrderedDict([(filename_nopath, codemodel.filenames_to_lines[filename_nopath])])
             preservation.Emplace(single)
-            codemodel.filenames_to_lines.update(single)
+            for key, lines in single.items():
+                if key != filename_nopath:
+                    # '.LostCode.txt' pseudo-file : keyed by the path the code was collected from, but createoutput
+                    # joins every key onto the output dir, so key it (like all others) relative to that dir.
+                    key = filename_nopath + key[len(file_to_preserve):]
+                codemodel.filenames_to_lines[key] = lines
 '''------------------------------------------------------------------------------------------------------'''
 
 
